@@ -23,6 +23,7 @@ import EaselModel.Dist.MixgevLog
 import EaselModel.Dist.HxpQuantile
 import EaselModel.Dist.MixgevAll
 import EaselModel.Dist.InvRight
+import EaselModel.Dist.InvTotal
 /-! # C10 — each distribution's pdf, cdf, survival, log and inverse functions agree
 
 Full statement (properties.jsonl): for every supported continuous distribution and all valid parameters and arguments
@@ -806,6 +807,102 @@ example : ∀ (n : Nat) (x2 : ℝ), 0 < x2 → x2 ≤ 1 → Bisect.bisect (fun x
     rw [if_neg (not_or.mpr ⟨not_le.mpr (by linarith), not_le.mpr (by linarith)⟩), if_pos hm, if_pos (by
       rw [e1, e2, div_self (by linarith)]; norm_num)]
     exact ih _ (by linarith) (by linarith)
+
+/-! ## Round 6: the bisection inverses as TOTAL functions over `ℝ` — the fuel argument disappears
+
+`BisectTotal.fuelRight reach δ`, `fuelGam reach δ s`, `fuelMix left right` are explicit numbers of loop passes
+(`⌈log₃ reach⌉` resp. `⌈log₂ (reach/s)⌉` bracketing passes; `⌈log₂ (width / (1e-6 δ))⌉` bisection passes — the bracket
+halves, and the code's stop rule `(x2−x1)/(x1+x2−2μ) ≤ 1e-6` holds as soon as the width is below `1e-6 δ`).  From that fuel
+on the translated function returns ONE value, independent of the fuel: `none` (= "still running") cannot occur. -/
+
+/-- generic form (`Bisect.invcdfRight / invcdfGam / invcdfMix`, which the translated functions ARE —
+    `bisection_inverses_generated`): the cdf in use may be ANY function within `ε` of a monotone reference `F`
+    (it need not be monotone itself — `esl_exp_cdf` over `ℝ` drops by `1.25e-17` at its `eslSMALLX1` switch);
+    `F (μ+δ) < p − ε` and `p + ε ≤ F X` ⇒ one value `r` for every `fuel ≥ fuelRight (X−μ) δ`, the midpoint of a final
+    bracket `[a, b] ⊂ [μ, ∞)` with `b − a ≤ 1e-6 (a + b − 2μ)`, `F a ≤ p + ε`, `p − ε ≤ F b`.  The `mixgev` loop
+    (absolute floor in the stop rule) needs only two bracketing points of the cdf itself. -/
+theorem bisection_total_generic {cdf F : ℝ → ℝ} {μ l t p ε δ X : ℝ} (hclose : ∀ x, |cdf x - F x| ≤ ε) (hF : Monotone F)
+    (h0 : cdf μ ≤ p) (hδ : 0 < δ) (hlow : F (μ + δ) < p - ε) (hX : p + ε ≤ F X) :
+    (∃ r, (∀ fuel, BisectTotal.fuelRight (X - μ) δ ≤ fuel → Bisect.invcdfRight fuel cdf p μ = some r) ∧
+      BisectTotal.Result F p μ ε r) ∧
+    (0 < t / l → ∃ r, (∀ fuel, BisectTotal.fuelGam (X - μ) δ (t / l) ≤ fuel → Bisect.invcdfGam fuel cdf p μ l t = some r) ∧
+      BisectTotal.Result F p μ ε r) ∧
+    (∀ (g : ℝ → ℝ) (m XL XR : ℝ), (∀ x, x ≤ XL → g x ≤ p) → (∀ x, XR ≤ x → p ≤ g x) →
+      ∃ r, (∀ fuel, BisectTotal.fuelMix (m - XL) (XR - m) ≤ fuel → Bisect.invcdfMix fuel g p m = some r) ∧
+        ∃ x1 x2, BisectTerm.FinalMix g p x1 x2 r) :=
+  ⟨BisectTotal.invcdfRight_total hclose hF h0 hδ hlow hX, fun hs => BisectTotal.invcdfGam_total hclose hF h0 hs hδ hlow hX,
+    fun _ _ _ _ hL hR => BisectTotal.invcdfMix_total hL hR⟩
+
+/-- non-vacuity (uniform cdf on `[0,1]`, `p = 1/2`, `ε = 0`, `δ = 1/4`, `X = 1/2`): one value for every fuel from
+    `fuelRight (1/2) (1/4)` on -/
+example : ∃ r, (∀ fuel, BisectTotal.fuelRight (1 / 2 - 0) (1 / 4) ≤ fuel →
+    Bisect.invcdfRight fuel (fun x : ℝ => max 0 (min x 1)) (1 / 2) 0 = some r) ∧
+    BisectTotal.Result (fun x : ℝ => max 0 (min x 1)) (1 / 2) 0 0 r :=
+  (bisection_total_generic (l := 1) (t := 1) (cdf := fun x : ℝ => max 0 (min x 1)) (F := fun x : ℝ => max 0 (min x 1)) (ε := 0)
+    (fun x => by simp) (fun a b hab => max_le_max le_rfl (min_le_min hab le_rfl)) (by norm_num) (by norm_num : (0 : ℝ) < 1 / 4)
+    (by norm_num) (by norm_num)).1
+
+/-- **`esl_hxp_invcdf` is total and accurate** (TRANSLATED function on its TRANSLATED cdf, every `K`, unconditional):
+    rates `> 0`, coefficients `≥ 0` with one `> 0`, `ε = 2.5e-17·Σq < p < Σq − ε`.  With `d`, `q₋`, `q₊` the (unique)
+    textbook quantiles of `(p−ε)/2`, `p−ε`, `p+ε`: for EVERY `fuel ≥ fuelRight (q₊−μ) (d−μ)` the function returns the same
+    `r`, and `q₋ − 1e-6 (r−μ) ≤ r ≤ q₊ + 1e-6 (r−μ)` — six digits of the offset from `μ` around a quantile band whose
+    width is the code-vs-textbook distance of the cdf. -/
+theorem hxp_invcdf_total {h : ESL_HYPEREXP ℝ} (ok : MixGen.HxpOK h) (hsome : ∃ k < h.K, 0 < MixGen.hq h k) {p : ℝ}
+    (hp0 : InvTotal.hxpEps h < p) (hp1 : p + InvTotal.hxpEps h < MixGen.hxpQ h) :
+    ∃ d qlo qhi r, (h.mu < d ∧ MixGen.hxpCdf h d = (p - InvTotal.hxpEps h) / 2) ∧
+      (h.mu < qlo ∧ MixGen.hxpCdf h qlo = p - InvTotal.hxpEps h) ∧ (h.mu < qhi ∧ MixGen.hxpCdf h qhi = p + InvTotal.hxpEps h) ∧
+      (∀ fuel, BisectTotal.fuelRight (qhi - h.mu) (d - h.mu) ≤ fuel → esl_hxp_invcdf fuel p h = some r) ∧
+      qlo - 1e-6 * (r - h.mu) ≤ r ∧ r ≤ qhi + 1e-6 * (r - h.mu) ∧ h.mu ≤ r :=
+  InvTotal.hxp_invcdf_total ok hsome hp0 hp1
+
+/-- non-vacuity: the normalised three-component hyperexponential above at `p = 1/2` -/
+example : ∃ d qhi r : ℝ, ∀ fuel, BisectTotal.fuelRight (qhi - 1) (d - 1) ≤ fuel →
+    esl_hxp_invcdf fuel (1 / 2) ({ mu := 1, K := 3, q := [0.25, 0.25, 0.5], lambda := [1, 2, 3], wrk := [0, 0, 0] } : ESL_HYPEREXP ℝ) = some r := by
+  have hQ : MixGen.hxpQ ({ mu := 1, K := 3, q := [0.25, 0.25, 0.5], lambda := [1, 2, 3], wrk := [0, 0, 0] } : ESL_HYPEREXP ℝ) = 1 := by
+    simp [MixGen.hxpQ, MixGen.hq, Finset.sum_range_succ]; norm_num
+  obtain ⟨d, _, qhi, r, _, _, _, hr, _⟩ := hxp_invcdf_total
+    (h := { mu := 1, K := 3, q := [0.25, 0.25, 0.5], lambda := [1, 2, 3], wrk := [0, 0, 0] }) (p := 1 / 2)
+    (by
+      intro k hk
+      have : k = 0 ∨ k = 1 ∨ k = 2 := by simp only at hk; omega
+      rcases this with rfl | rfl | rfl <;> simp [MixGen.hq, MixGen.hl] <;> norm_num)
+    ⟨0, by simp, by simp [MixGen.hq]; norm_num⟩ (by rw [InvTotal.hxpEps, hQ]; norm_num) (by rw [InvTotal.hxpEps, hQ]; norm_num)
+  exact ⟨d, qhi, r, hr⟩
+
+/-- `esl_sxp_invcdf` / `esl_gam_invcdf` total and accurate (TRANSLATED functions on their TRANSLATED cdfs).
+    `_partial`: conditional on ONE named special-function fact each, `InvTotal.IncGammaPWithin a ε` — the `P` computed by the
+    algorithm of `esl_stats_IncompleteGamma` (hand model read over `ℝ`) at shape `a` (`1/τ` resp. `τ`) is within `ε` of the
+    regularised incomplete gamma INTEGRAL for every `y > 0`; that fact is not proved (series / continued fraction
+    convergence), it is listed in the evidence assumptions and monitored (`ε ≈ 1e-7`).  Everything else — existence and
+    uniqueness of the textbook quantiles, termination with the explicit fuel, the six-digit band — is proved. -/
+theorem sxp_gam_invcdf_total_partial {μ l τ p ε : ℝ} (hl : 0 < l) (hτ : 0 < τ) (hp0 : ε < p) (hp1 : p + ε < 1) :
+    (InvTotal.IncGammaPWithin (1 / τ) ε → ∃ d qlo qhi r, (μ < d ∧ GamSxpThm.sxpCdf μ l τ d = (p - ε) / 2) ∧
+      (μ < qlo ∧ GamSxpThm.sxpCdf μ l τ qlo = p - ε) ∧ (μ < qhi ∧ GamSxpThm.sxpCdf μ l τ qhi = p + ε) ∧
+      (∀ fuel, BisectTotal.fuelRight (qhi - μ) (d - μ) ≤ fuel → esl_sxp_invcdf fuel p μ l τ = some r) ∧
+      qlo - 1e-6 * (r - μ) ≤ r ∧ r ≤ qhi + 1e-6 * (r - μ) ∧ μ ≤ r) ∧
+    (InvTotal.IncGammaPWithin τ ε → ∃ d qlo qhi r, (μ < d ∧ GamSxpThm.gamCdf μ l τ d = (p - ε) / 2) ∧
+      (μ < qlo ∧ GamSxpThm.gamCdf μ l τ qlo = p - ε) ∧ (μ < qhi ∧ GamSxpThm.gamCdf μ l τ qhi = p + ε) ∧
+      (∀ fuel, BisectTotal.fuelGam (qhi - μ) (d - μ) (τ / l) ≤ fuel → esl_gam_invcdf fuel p μ l τ = some r) ∧
+      qlo - 1e-6 * (r - μ) ≤ r ∧ r ≤ qhi + 1e-6 * (r - μ) ∧ μ ≤ r) :=
+  ⟨fun hIG => InvTotal.sxp_invcdf_total hl hτ hIG hp0 hp1, fun hIG => InvTotal.gam_invcdf_total hl hτ hIG hp0 hp1⟩
+
+/-- `esl_mixgev_invcdf` total (TRANSLATED function on its TRANSLATED cdf), for EVERY parameter structure and `p`: given a
+    point left of which the cdf is `≤ p` and one right of which it is `≥ p`, one value for every
+    `fuel ≥ fuelMix (min μ_k − XL) (XR − min μ_k)`, the midpoint of a final bracket obeying the C stop rule. -/
+theorem mixgev_invcdf_total (mg : ESL_MIXGEV ℝ) {p XL XR : ℝ} (hL : ∀ x, x ≤ XL → esl_mixgev_cdf x mg ≤ p)
+    (hR : ∀ x, XR ≤ x → p ≤ esl_mixgev_cdf x mg) :
+    ∃ r, (∀ fuel, BisectTotal.fuelMix (esl_vec_DMin mg.mu mg.K - XL) (XR - esl_vec_DMin mg.mu mg.K) ≤ fuel →
+        esl_mixgev_invcdf fuel p mg = some r) ∧
+      ∃ a b, a ≤ b ∧ r = (a + b) / 2 ∧ esl_mixgev_cdf a mg ≤ p ∧ p ≤ esl_mixgev_cdf b mg ∧ b - a ≤ 1e-6 * ((|a| + |b|) + 1e-9) :=
+  InvTotal.mixgev_invcdf_total mg hL hR
+
+/-- non-vacuity of the `mixgev` hypotheses on the generic loop (uniform cdf, `p = 1/2`, `m = 0`) -/
+example : ∃ r, ∀ fuel, BisectTotal.fuelMix (0 - 0) (1 - 0) ≤ fuel →
+    Bisect.invcdfMix fuel (fun x : ℝ => max 0 (min x 1)) (1 / 2) 0 = some r := by
+  obtain ⟨r, hr, _⟩ := BisectTotal.invcdfMix_total (cdf := fun x : ℝ => max 0 (min x 1)) (p := 1 / 2) (m := 0) (XL := 0) (XR := 1)
+    (fun x hx => max_le (by norm_num) ((min_le_left _ _).trans (by linarith)))
+    (fun x hx => le_max_of_le_right (le_min (by linarith) (by norm_num)))
+  exact ⟨r, hr⟩
 
 /-! ## The pdf integrates to cdf differences -/
 
